@@ -101,8 +101,14 @@ IAtHead(im, fl, l, y, v) == IF im.head[l] = 0 THEN IR(IAppend(im, l, y, v), RNod
                             ELSE IInsVal(im, fl, l, y, v, im.head[l], FALSE)
 IPop(im, l)     == IF im.tail[l] = 0 THEN IR(im, Err("IndexError")) ELSE IRemoveNode(im, l, im.tail[l])
 IExtend(im, l, f, vs) == FoldLeft(LAMBDA acc, i : IAppend(acc, l, f[i], vs[i]), im, [i \in 1..Len(f) |-> i])
-IClear(im, l)   == IF im.neg = "keepsize" THEN [im EXCEPT !.head[l] = 0, !.tail[l] = 0]
-                   ELSE [im EXCEPT !.head[l] = 0, !.tail[l] = 0, !.size[l] = 0]
+\* clear(); the nodes the list held are garbage from now on (nobody uses them: their links are not looked at)
+IClear(im, l)   == LET old == ToSet(IWalk(im, im.head[l]))
+                       i1  == IF im.neg = "keepsize" THEN [im EXCEPT !.head[l] = 0, !.tail[l] = 0]
+                              ELSE [im EXCEPT !.head[l] = 0, !.tail[l] = 0, !.size[l] = 0]
+                   IN [i1 EXCEPT !.made = @ \ old,
+                                 !.ival = [x \in DOMAIN @ |-> IF x \in old THEN NoV ELSE @[x]],
+                                 !.nxt = [x \in DOMAIN @ |-> IF x \in old THEN 0 ELSE @[x]],
+                                 !.prv = [x \in DOMAIN @ |-> IF x \in old THEN 0 ELSE @[x]]]
 IListVals(im, l) == IVals(im, IWalk(im, im.head[l]))                       \* list(self)
 \* object.__reduce_ex__ / copy / pickle: state = __getstate__(); new object; __setstate__(state) = clear + extend
 Dropped(fl, c, state) == fl.empick /\ c.k \in {"pickle0", "pickle1"} /\ state = <<>>
@@ -115,12 +121,7 @@ IOAdd1(im, s, a) ==       \* -> [im, ok]
     ELSE LET y == IFresh(im) IN
          [im |-> [IAppend(im, PL(im, s), y, a) EXCEPT !.table[s][a.n] = y], ok |-> TRUE]
 IOAddAll(im, s, as) == FoldLeft(LAMBDA acc, it : IF acc.ok THEN IOAdd1(acc.im, s, it) ELSE acc, [im |-> im, ok |-> TRUE], as)
-IOReset(im, s)  == LET old == ToSet(IWalk(im, im.head[PL(im, s)])) IN
-                   [IClear(im, PL(im, s)) EXCEPT !.table[s] = [n \in DOMAIN @ |-> 0],
-                                               !.made = @ \ old,
-                                               !.ival = [x \in DOMAIN @ |-> IF x \in old THEN NoV ELSE @[x]],
-                                               !.nxt = [x \in DOMAIN @ |-> IF x \in old THEN 0 ELSE @[x]],
-                                               !.prv = [x \in DOMAIN @ |-> IF x \in old THEN 0 ELSE @[x]]]
+IOReset(im, s)  == [IClear(im, PL(im, s)) EXCEPT !.table[s] = [n \in DOMAIN @ |-> 0]]
 IORemove(im, s, a) ==
     IF a.k = "U" THEN IR(im, Err("TypeError"))
     ELSE IF im.table[s][a.n] = 0 THEN IR(im, Err("KeyError"))
